@@ -714,7 +714,7 @@ def run_transform(n_cases, rng, cov):
         cases.append((spec, res[1], res[2]))
         k = spec_class(spec)
         hist[k] = hist.get(k, 0) + 1
-    model = core.coq_eval('c14a', ['Base.PyValue', 'Model.Statements'], [c[1] for c in cases])
+    model = core.coq_eval(f'c14a_{os.getpid()}', ['Base.PyValue', 'Model.Statements'], [c[1] for c in cases])
     violations = []
     nontrivial = set()
     for (spec, _, got), m in zip(cases, model):
@@ -1176,7 +1176,7 @@ def model_print_selection(recs):
         vals = r['values']
         w = 'None' if vals is None else '(Some ' + clist([value_to_coq(v) for v in vals]) + ')'
         exprs.append(f'o_presult (print_indexes {w} {r["table"]})')
-    res = core.coq_eval('c14d', ['Base.PyValue', 'Model.Statements'], exprs, shard=40)
+    res = core.coq_eval(f'c14d_{os.getpid()}', ['Base.PyValue', 'Model.Statements'], exprs, shard=40)
     return [x[1] if x[0] == 0 else ('raise', x[1]) for x in res]
 
 
@@ -1250,7 +1250,7 @@ def replay(rec):
     if kind == 'transform':
         spec = tuple(rec['spec'])
         node = build_node(spec)
-        m = core.coq_eval('c14r', ['Base.PyValue', 'Model.Statements'], [f'o_tresult {stmt_coq(node)}'])[0]
+        m = core.coq_eval(f'c14r_{os.getpid()}', ['Base.PyValue', 'Model.Statements'], [f'o_tresult {stmt_coq(node)}'])[0]
         return real_transform(node) == m
     if kind == 'stmt':
         return not stmt_fails(rec['ledger'], rec['spec'], rec['problem'])
@@ -1327,7 +1327,7 @@ def run(tier, rng):
     core.log(f'[C14] B statements: {n_b}, {time.time() - t0:.1f}s')
     # C: order of BALANCES rows, decided by the model's checker
     exprs = ['o_bool (sorted_keys ' + clist([f'({k[0]}, {cstr(k[1])})' for k in keys]) + ')' for _, _, keys in key_lists]
-    sorted_res = core.coq_eval('c14c', ['Base.PyValue', 'Model.Statements'], exprs, shard=100)
+    sorted_res = core.coq_eval(f'c14c_{os.getpid()}', ['Base.PyValue', 'Model.Statements'], exprs, shard=100)
     for (path, spec, keys), ok in zip(key_lists, sorted_res):
         if ok != 1:
             kinds.setdefault('balances-order', []).append((path, spec, f'accounts not in (type, name) order: {[k[1] for k in keys]}'))
